@@ -433,6 +433,12 @@ class DFContainer:
             self.locals.pop(place.id, None)
         else:
             self.locals[place.id] = port
+            # If a lookup has packed an enclosing struct or tuple earlier, then that
+            # wire is stale now. We need to forget about it, so the next lookup packs
+            # the current fields again
+            while isinstance(place, FieldAccess | TupleAccess):
+                place = place.parent
+                self.locals.pop(place.id, None)
 
     def __contains__(self, place: Place) -> bool:
         return place.id in self.locals
